@@ -469,3 +469,21 @@ def run(repo: Repo, rep: Report, tier: str) -> None:
     from .shared import borrow as _borrow14
     _borrow14(repo, rep, "C16", "C16-R5", "C14-R11", "the zero-step rule sees the step the program wrote: the transformer hands the literal step on unchanged (a default is applied only when the clause is absent)",
               select=lambda o: "step" in o.construct, floor=2)
+
+    # ---------------- R12 --------------------------------------------------------------
+    rep.rule("C14-R12", "a signal name is accepted only if the game knows it: every `True` answer of is_valid_factorio_signal is given under a membership test in the game's signal "
+             "tables, or for the compiler's own `__v` names; no answer is given on the strength of the name's spelling")
+    vf = repo.func("is_valid_factorio_signal")
+    from .util import cguards as _cg12
+    ALLOWED12 = ("signal_name in signal_data.raw", "signal_name in signal_data.type_of", "signal_name.startswith('__v')")
+    trues = [r for r in walk_local(vf.node) if isinstance(r, ast.Return) and isinstance(r.value, ast.Tuple) and r.value.elts and isinstance(r.value.elts[0], ast.Constant) and r.value.elts[0].value is True]
+    other = [r for r in walk_local(vf.node) if isinstance(r, ast.Return) and r not in trues and not (isinstance(r.value, ast.Tuple) and r.value.elts and isinstance(r.value.elts[0], ast.Constant) and r.value.elts[0].value is False)]
+    rep.floor("C14-R12", "accepting returns of the validator", len(trues), 2)
+    for r in other:
+        rep.unknown("C14-R12", "is_valid_factorio_signal: a return whose verdict is not a literal", norm(r)[:80], vf.loc(r))
+    for i, r in enumerate(trues):
+        gs = _cg12(vf, r)
+        pos = [g for g, pol in gs if pol]
+        ok12 = any(g in ALLOWED12 for g in pos)
+        rep.check(ok12, "C14-R12", f"is_valid_factorio_signal: accepting return #{i + 1} is a table membership", (pos[-1] if pos else "")[:90] if ok12 else
+                  f"accepted under `{' and '.join(pos) or 'no test'}`: names that merely look like signals (`signal-nonexistent`) pass analysis and fail, or silently vanish, later", vf.loc(r))
